@@ -45,7 +45,22 @@ def explore(ctx, depth):
         nt = (len(case.adoc['headers']) >= 2 or any(r['kind'] == 'cells' and r['rk'] == 'split' for r in case.adoc['rows'])) and \
             any(r['kind'] == 'global' for r in case.adoc['rows'])
         got = call(lambda: [[t.encoding, t.category.value - 1] for t in case.doc.get_all_tokens()])
-        ctx.check({'text': case.text, 'clause': 'listing order'}, got, None, {'ok': exp}, nontrivial=nt,
+        mfil = [None, [TC.NOTE_REST.value - 1], [TC.CORE.value - 1, TC.COMMENTS.value - 1], []]
+        import impl as IM
+        mr = ctx.driver.ask([{'op': 'doc.listing', 'text': case.text, 'oracle': IM.oracle_for_text(case.text), 'filters': mfil}])[0]
+        model = {'ok': mr['ok']['listings'][0]} if 'ok' in mr else mr
+        if 'ok' in mr:
+            for f, ml, mu in zip(mfil[1:], mr['ok']['listings'][1:], mr['ok']['uniques'][1:]):
+                fc = [cats[i] for i in f]
+                gi = call(lambda: [[t.encoding, t.category.value - 1] for t in case.doc.get_all_tokens(filter_by_categories=fc)])
+                gu = call(lambda: [[t.encoding, t.category.value - 1] for t in case.doc.get_unique_tokens(filter_by_categories=fc)])
+                ctx.check({'text': case.text, 'filter': f, 'clause': 'tie: filtered / unique listing'}, [gi, gu], [{'ok': ml}, {'ok': mu}], None, nontrivial=False,
+                          what='filtered or unique listing differs from the model')
+            ctx.check({'text': case.text, 'clause': 'tie: comments, measures, spine types'},
+                      [call(lambda: case.doc.get_metacomments()), call(lambda: case.doc.measures_count()) if case.doc.measure_start_tree_stages else {'err': 'Exception'},
+                       call(lambda: kp.spine_types(case.doc))],
+                      [{'ok': mr['ok']['metacomments']}, mr['ok']['measures'], mr['ok']['spine_types']], None, nontrivial=False, what='queries differ from the model')
+        ctx.check({'text': case.text, 'clause': 'listing order'}, got, model, {'ok': exp}, nontrivial=nt,
                   what='the token listing is not: pre-header comments, each spine depth-first left to right, later comments')
         if got != {'ok': exp}:
             continue
